@@ -68,18 +68,24 @@ class mpool(object):
     def __init__(self):
         self.pool_id = {}
         self.pool_mem = {}
+    def mem_key(self, a):
+        # memory cells are keyed by their simplified address: eval_ExprMem
+        # looks them up by the simplified address it computes
+        return expr_simp(a.arg)
     def __contains__(self, a):
         if not isinstance(a, ExprMem):
             return self.pool_id.__contains__(a)
-        if not self.pool_mem.__contains__(a.arg):
+        k = self.mem_key(a)
+        if not self.pool_mem.__contains__(k):
             return False
-        return self.pool_mem[a.arg][0].get_size() == a.get_size()
+        return self.pool_mem[k][0].get_size() == a.get_size()
     def __getitem__(self, a):
         if not isinstance(a, ExprMem):
             return self.pool_id.__getitem__(a)
-        if not a.arg in self.pool_mem:
+        k = self.mem_key(a)
+        if not k in self.pool_mem:
             raise KeyError(a)
-        m = self.pool_mem.__getitem__(a.arg)
+        m = self.pool_mem.__getitem__(k)
         if m[0].get_size() != a.get_size():
             raise KeyError(a)
         return m[1]
@@ -87,7 +93,10 @@ class mpool(object):
         if not isinstance(a, ExprMem):
             self.pool_id.__setitem__(a, v)
             return
-        self.pool_mem.__setitem__(a.arg, (a, v))
+        k = self.mem_key(a)
+        if not k is a.arg:
+            a = ExprMem(k, a.size, a.segm)
+        self.pool_mem.__setitem__(k, (a, v))
     def __iter__(self):
         for a in self.pool_id:
             yield a
@@ -97,7 +106,7 @@ class mpool(object):
         if not isinstance(a, ExprMem):
             self.pool_id.__delitem__(a)
         else:
-            self.pool_mem.__delitem__(a.arg)
+            self.pool_mem.__delitem__(self.mem_key(a))
     def items(self):
         k = self.pool_id.items() + [x for x in self.pool_mem.values()]
         return k
